@@ -108,3 +108,11 @@ func VerifSetH3Dial(t *Transport, dial func(ctx context.Context, addr string, tl
 		t.t3.Dial = dial
 	}
 }
+
+// VerifH3CloseIdle calls CloseIdleConnections of t's HTTP/3 round tripper (Transport.
+// CloseIdleConnections itself only reaches the HTTP/1.1 pool and the HTTP/2 pool).
+func VerifH3CloseIdle(t *Transport) {
+	if t.t3 != nil {
+		t.t3.CloseIdleConnections()
+	}
+}
